@@ -7,8 +7,10 @@
    shape as the rows of A); drivers print it flattened.
    Uninitialised memory: diagonal(A) leaves cells of rows without a diagonal entry
    unwritten -> explicit [junk] input (MatOps.diagonal).
-   pointwise_matrix: the model of MatOps2.v (matops group) is used. *)
-From Amgcl Require Import Scalar Vec Crs Kernels MatOps MatOps2.
+   pointwise_matrix: modelled HERE (prefix pwm_), following the current code (/repo 2f75975: the entry
+   that ends the scan of a block column is no longer consumed).  coq/MatOps2.v of the matops
+   group still described the pre-fix code when this was written. *)
+From Amgcl Require Import Scalar Vec Crs Kernels MatOps.
 Local Open Scope S_scope.
 
 Definition undefined : Z := (-1)%Z.
@@ -30,6 +32,71 @@ Inductive aggregates :=
 | AggEmpty                                             (* throw error::empty_level() *)
 | AggPrecond                                           (* precondition(...) failed (pointwise_matrix) *)
 | AggOk (count : nat) (id : list Z) (strong : flags).
+
+
+(* ---- backend::pointwise_matrix (builtin.hpp:500-665), current code.
+   One cursor per scalar row of the block row (the remaining suffix of the row).  A round:
+   cur_col /= block_size; col_end = (cur_col+1)*block_size; every cursor advances over the
+   entries with c < col_end (their norms enter the maximum) and STOPS AT (does not consume) the
+   first entry with c >= col_end, which competes for the next cur_col. *)
+Definition pwm_upd (cur : option nat) (c : nat) : option nat :=
+  match cur with None => Some c | Some c0 => Some (Nat.min c0 c) end.
+
+Section PointwiseMatrix.
+Context {S : Scalar}.
+
+Definition pwm_heads (js : list (row S)) (cur : option nat) : option nat :=
+  fold_left (fun cur r => match r with [] => cur | e :: _ => pwm_upd cur (fst e) end) js cur.
+
+Fixpoint pwm_scan (col_end : nat) (r : row S) (acc : option S) : row S * option S :=
+  match r with
+  | [] => ([], acc)
+  | (c, v) :: tl =>
+    if Nat.leb col_end c then (r, acc)
+    else pwm_scan col_end tl (Some (match acc with None => sabs v | Some m => smax m (sabs v) end))
+  end.
+
+Fixpoint pwm_pass (col_end : nat) (js : list (row S)) (acc : option S) : list (row S) * option S :=
+  match js with
+  | [] => ([], acc)
+  | r :: rest =>
+    let p := pwm_scan col_end r acc in
+    let q := pwm_pass col_end rest (snd p) in
+    (fst p :: fst q, snd q)
+  end.
+
+(* while(!done); every round consumes at least one entry: fuel = #entries + 1 *)
+Fixpoint pwm_loop (fuel bs : nat) (cur : option nat) (js : list (row S)) : row S :=
+  match fuel with
+  | O => []
+  | Datatypes.S f =>
+    match cur with
+    | None => []
+    | Some c0 =>
+      let cc := Nat.div c0 bs in
+      let p := pwm_pass ((cc + 1) * bs) js None in
+      (cc, match snd p with None => s0 | Some m => m end) :: pwm_loop f bs (pwm_heads (fst p) None) (fst p)
+    end
+  end.
+
+Definition pwm_fuel (js : list (row S)) : nat :=
+  Datatypes.S (fold_left (fun a r => a + length r)%nat js 0%nat).
+Definition pwm_block_row (bs : nat) (js : list (row S)) : row S :=
+  pwm_loop (pwm_fuel js) bs (pwm_heads js None) js.
+
+Fixpoint pwm_groups {X} (np bs : nat) (l : list X) : list (list X) :=
+  match np with
+  | O => []
+  | Datatypes.S k => firstn bs l :: pwm_groups k bs (skipn bs l)
+  end.
+
+(* None = precondition "Matrix size should be divisible by block_size" *)
+Definition pwm (A : crs S) (bs : nat) : option (crs S) :=
+  if Nat.eqb bs 0 then None else
+  let np := Nat.div (nrows A) bs in
+  if negb (Nat.eqb (np * bs) (nrows A)) then None else
+  Some (mkCrs (Nat.div (ncols A) bs) (map (pwm_block_row bs) (pwm_groups np bs (rows A)))).
+End PointwiseMatrix.
 
 Section Aggregates.
 Context {S : Scalar}.
@@ -119,12 +186,11 @@ Definition remove_small (bs min_aggr : nat) (count : nat) (id : list Z) : nat * 
   (snd nm, map (fun a => if Z.eqb a removed then a else nth (Z.to_nat a) (fst nm) removed) id).
 
 (* ---- pointwise_aggregates, block_size > 1: expansion of the pointwise flags to A.
-   For block row ip the code keeps one cursor j[k] per scalar row; for every entry
-   (cp, sp0) of Ap's row it advances each cursor while A.col[beg] < (cp+1)*bs and writes
-       strong[beg] = sp && A.col[beg] != (ia + k)
-   where sp = (cp == ip) || sp0 and -- as coded -- ia has ALREADY been advanced by
-   block_size in the preceding id loop, i.e. ia = (ip+1)*bs.  Entries never reached
-   keep the 0 of vector::resize. *)
+   For block row ip the code keeps one cursor j[k] per scalar row ia+k, ia = ip*bs; for every
+   entry (cp, sp0) of Ap's row it advances each cursor while A.col[beg] < (cp+1)*bs and writes
+       strong[beg] = sp && A.col[beg] != (ia + k),     sp = (cp == ip) || sp0
+   (since /repo 384f188 ia is no longer advanced by the id loop: ia + k is the row's own
+   diagonal).  Entries never reached keep the 0 of vector::resize. *)
 Fixpoint take_lt (col_end : nat) (sp : bool) (excl : nat) (r : list nat) : list bool * list nat :=
   match r with
   | [] => ([], [])
@@ -139,7 +205,7 @@ Definition expand_step (bs ip : nat) (st : list (list bool * list nat)) (e : nat
   let cp := fst e in
   let sp := Nat.eqb cp ip || snd e in
   let col_end := ((cp + 1) * bs)%nat in
-  map (fun ks => let p := take_lt col_end sp ((ip + 1) * bs + fst ks)%nat (snd (snd ks)) in
+  map (fun ks => let p := take_lt col_end sp (ip * bs + fst ks)%nat (snd (snd ks)) in
                  (fst (snd ks) ++ fst p, snd p))
       (indexed st).
 
@@ -157,7 +223,7 @@ Definition pointwise_aggregates (eps2 : S) (bs min_aggr : nat) (A : crs) (junk :
     | r => r
     end
   else
-    match pointwise_matrix A bs with
+    match pwm A bs with
     | None => AggPrecond
     | Some Ap =>
       match plain_aggregates eps2 Ap junk with
@@ -165,7 +231,7 @@ Definition pointwise_aggregates (eps2 : S) (bs min_aggr : nat) (A : crs) (junk :
         let r := remove_small bs min_aggr c id in
         AggOk (fst r * bs) (expand_ids bs (snd r))
               (concat (map (fun ig => expand_block bs (fst ig) (snd ig) (srow Ap st (fst ig)))
-                           (indexed (groups (nrows Ap) bs (rows A)))))
+                           (indexed (pwm_groups (nrows Ap) bs (rows A)))))
       | r => r
       end
     end.
